@@ -19,6 +19,21 @@
  *        kind s: format = "%s", argument string <arg hex>
  *        kind d: format = "n=%d", argument int <arg decimal>
  *   D                                dump to a file and read it back
+ *
+ * ring commands (lower case; the "split" stage of props/C11.py - alloc / copy / commit as separate calls and waits with
+ * ms_timeout != 0, for coq/RbOwSplitModel.v and coq/RbOwWaitModel.v; output format of harness/h_rb.c):
+ *   o <S> <flags>      qb_rb_open(name, S, CREATE | flags)   flags letters o = OVERWRITE, n = NO_SEMAPHORE, - = none
+ *   w <hex|->          qb_rb_chunk_write                                              -> r <ret> -
+ *   a <rlen>           p = qb_rb_chunk_alloc(rb, rlen)            -> ra 0 (no q line)  |  r <-errno> - and q line when it fails
+ *   f <hex|->          memcpy(p, bytes, len)   (skipped when the last alloc failed)   -> nothing
+ *   c <len>            qb_rb_chunk_commit(rb, len)  (skipped, silently, when the last alloc failed) -> r <ret> -
+ *   r <n> <ms>         qb_rb_chunk_read(rb, buf[n], n, ms)                            -> r <ret> <hex|->
+ *   p <ms>             qb_rb_chunk_peek(rb, &ptr, ms)                                 -> r <ret> <hex|->
+ *   x                  qb_rb_chunk_reclaim                                            -> r 0 -
+ *   d                  qb_rb_write_to_file(rb, memfd), the file as hex words          -> d <w>.<w>. ...
+ *   every command except a / f is followed by  q <space_free> <space_used> <chunks_used>
+ *   (the wrapped clock is in the past, so a timed wait on a count of 0 returns at once with ETIMEDOUT)
+ *
  * output lines:
  *   B ... (echo)
  *   b <rc size> <rc maxline> <rc filter> <rc enable>
@@ -39,6 +54,7 @@
 #include <sched.h>
 #include <time.h>
 #include <sys/mount.h>
+#include <sys/mman.h>
 #include <qb/qblog.h>
 #include <qb/qbrb.h>
 
@@ -51,6 +67,11 @@ static void *last_chunk;
 static long vclock;
 static struct timespec last_ts, alloc_ts;
 static int dump_no;
+static qb_ringbuffer_t *ring;
+static void *ring_p;
+static int ring_alloc_err;
+static int ring_no;
+static size_t ring_S;
 
 static void puthex(const unsigned char *p, size_t n)
 {
@@ -204,6 +225,127 @@ static void do_dump(void)
 	qb_rb_close(rb);
 }
 
+static void ring_query(void)
+{
+	if (ring) {
+		fprintf(fo, "q %zd %zd %zd\n", qb_rb_space_free(ring), qb_rb_space_used(ring), qb_rb_chunks_used(ring));
+	}
+}
+
+static void ring_close(void)
+{
+	if (ring) {
+		qb_rb_close(ring);
+		ring = NULL;
+	}
+	ring_p = NULL;
+	ring_alloc_err = 0;
+}
+
+/* returns 1 when the line was a ring command */
+static int ring_command(char c, char *arg)
+{
+	static unsigned char *buf;
+	static size_t bufsz;
+	if (strchr("owafcrpxd", c) == NULL) {
+		return 0;
+	}
+	if (bufsz == 0) {
+		bufsz = 1 << 17;
+		buf = malloc(bufsz);
+	}
+	if (c == 'o') {
+		char name[128], fl[32] = "-";
+		unsigned long S = 0;
+		uint32_t flags = QB_RB_FLAG_CREATE;
+		ring_close();
+		sscanf(arg, "%lu %31s", &S, fl);
+		if (strchr(fl, 'o')) flags |= QB_RB_FLAG_OVERWRITE;
+		if (strchr(fl, 'n')) flags |= QB_RB_FLAG_NO_SEMAPHORE;
+		snprintf(name, sizeof name, "/dev/shm/vrbs-%d-%d", (int)getpid(), ring_no++);
+		ring = qb_rb_open(name, S, flags, 0);
+		ring_S = S;
+		fprintf(fo, "o %d\n", ring ? 1 : 0);
+		ring_query();
+		return 1;
+	}
+	if (!ring) {
+		fprintf(fo, "r noring\n");
+		return 1;
+	}
+	if (c == 'w') {
+		size_t n = unhex(arg, buf, bufsz);
+		fprintf(fo, "r %zd -\n", qb_rb_chunk_write(ring, buf, n));
+	} else if (c == 'a') {
+		unsigned long rlen = strtoul(arg, NULL, 10);
+		errno = 0;
+		ring_p = qb_rb_chunk_alloc(ring, rlen);
+		ring_alloc_err = ring_p ? 0 : errno;
+		if (ring_p) {
+			fprintf(fo, "ra 0\n");
+			return 1;
+		}
+		fprintf(fo, "r %d -\n", -ring_alloc_err);      /* reported like a failed composite operation */
+	} else if (c == 'f') {
+		size_t n = unhex(arg, buf, bufsz);
+		if (ring_p) {
+			memcpy(ring_p, buf, n);
+		}
+		return 1;
+	} else if (c == 'c') {
+		unsigned long len = strtoul(arg, NULL, 10);
+		if (ring_p == NULL) {
+			return 1;                               /* the alloc failed and said so */
+		}
+		fprintf(fo, "r %d -\n", qb_rb_chunk_commit(ring, len));
+		ring_p = NULL;
+	} else if (c == 'r') {
+		long n = 0, ms = 0;
+		unsigned char *out;
+		ssize_t res;
+		size_t i, from;
+		int clobber = 0;
+		sscanf(arg, "%ld %ld", &n, &ms);
+		out = malloc(n ? n : 1);
+		memset(out, 0x5A, n ? n : 1);
+		res = qb_rb_chunk_read(ring, out, n, (int32_t)ms);
+		from = (res > 0) ? (size_t)res : 0;
+		for (i = from; i < (size_t)n; i++) {
+			if (out[i] != 0x5A) clobber = 1;
+		}
+		fprintf(fo, "r %zd ", res);
+		puthex(out, (res > 0 && res <= n) ? (size_t)res : 0);
+		fprintf(fo, "%s\n", clobber ? " CLOBBER" : "");
+		free(out);
+	} else if (c == 'p') {
+		void *ptr = NULL;
+		ssize_t res = qb_rb_chunk_peek(ring, &ptr, (int32_t)strtol(arg, NULL, 10));
+		fprintf(fo, "r %zd ", res);
+		puthex(ptr, (res > 0 && ptr && (size_t)res <= ring_S + 2 * 4096) ? (size_t)res : 0);
+		fprintf(fo, "\n");
+	} else if (c == 'x') {
+		qb_rb_chunk_reclaim(ring);
+		fprintf(fo, "r 0 -\n");
+	} else if (c == 'd') {
+		int fd = memfd_create("vrbsdump", 0);
+		ssize_t res = qb_rb_write_to_file(ring, fd);
+		uint32_t w;
+		fprintf(fo, "d ");
+		if (res > 0) {
+			lseek(fd, 0, SEEK_SET);
+			while (read(fd, &w, 4) == 4) {
+				fprintf(fo, "%x.", w);
+			}
+		} else {
+			fprintf(fo, "error%zd", res);
+		}
+		fprintf(fo, "\n");
+		close(fd);
+	}
+	ring_query();
+	return 1;
+}
+
 int main(void)
 {
 	char *line = NULL;
@@ -237,8 +379,12 @@ int main(void)
 		while (*arg == ' ') {
 			arg++;
 		}
+		if (ring_command(c, arg)) {
+			continue;
+		}
 		if (c == '#') {
 			fini();
+			ring_close();
 			vclock = 0;
 			fprintf(fo, "%s\n", line);
 			fflush(fo);
@@ -300,6 +446,7 @@ int main(void)
 		}
 	}
 	fini();
+	ring_close();
 	fflush(fo);
 	return 0;
 }
